@@ -333,7 +333,7 @@ func init() {
 		return &TupleV{Elems: []SV{&Scalar{T: v, Ty: tup.At(0).Type()}, er}}
 	}
 	for _, n := range []string{"time.Parse", "time.Now", "log.Printf",
-		"fmt.Sprint", "(time.Time).Format", "(time.Duration).String", "time.ParseDuration"} {
+		"fmt.Sprint", "(time.Duration).String", "time.ParseDuration"} {
 		pure(n)
 	}
 	// error-message model: fmt.Errorf returns a fresh non-nil error whose message is sprintf(format, args) and
@@ -474,6 +474,50 @@ func init() {
 			return nil
 		})
 		return &TupleV{}
+	}
+	// strings.Builder: the accumulated content is a ghost string per builder address
+	bKey := "G|builder|content"
+	bArr := func(e *Exec, st *BState) *Term { return e.heapArr(st, bKey, arrSort(SInt, SStr)) }
+	bAddr := func(a SV) *Term {
+		p := a.(*PtrV)
+		if p.Addr != nil {
+			return p.Addr
+		}
+		// a local strings.Builder value: identified by its variable
+		if p.LV != nil && p.LV.Alloc != nil {
+			return intLit(-1000000 - int64(p.LV.Alloc.Pos()))
+		}
+		panic("strings.Builder at an unsupported location")
+	}
+	externs["(*strings.Builder).WriteString"] = func(e *Exec, st *BState, x *ssa.Call, args []SV) SV {
+		a := bAddr(args[0])
+		arr := bArr(e, st)
+		st.heap[bKey] = sto(arr, a, app(SStr, "str.++", sel(arr, a, SStr), scal(args[1])))
+		tup := x.Type().(*types.Tuple)
+		return &TupleV{Elems: []SV{&Scalar{T: e.strLen(scal(args[1])), Ty: tup.At(0).Type()}, zeroValue(tup.At(1).Type())}}
+	}
+	externs["(*strings.Builder).String"] = func(e *Exec, st *BState, x *ssa.Call, args []SV) SV {
+		return &Scalar{T: sel(bArr(e, st), bAddr(args[0]), SStr), Ty: x.Type()}
+	}
+	externs["(*strings.Builder).Reset"] = func(e *Exec, st *BState, x *ssa.Call, args []SV) SV {
+		st.heap[bKey] = sto(bArr(e, st), bAddr(args[0]), strLit(""))
+		return &TupleV{}
+	}
+	for _, n := range []string{"strconv.FormatInt", "strconv.FormatFloat", "strconv.FormatBool", "strconv.Itoa", "strconv.Quote"} {
+		name := n
+		externs[name] = func(e *Exec, st *BState, x *ssa.Call, args []SV) SV {
+			var ts []*Term
+			var sorts []string
+			for _, a := range args {
+				ts = append(ts, scal(a))
+				sorts = append(sorts, scal(a).Sort)
+			}
+			return &Scalar{T: ufun("ext."+name, sorts, SStr, ts...), Ty: x.Type()}
+		}
+	}
+	externs["(time.Time).Format"] = func(e *Exec, st *BState, x *ssa.Call, args []SV) SV {
+		tv := args[0].(*StructV)
+		return &Scalar{T: ufun("ext.time.Format", []string{SInt, SInt, SStr}, SStr, scal(tv.Fields[0]), scal(tv.Fields[1]), scal(args[1])), Ty: x.Type()}
 	}
 	// time model: (ns, aux)
 	tm := func(ns, aux *Term, t types.Type) SV {
